@@ -582,7 +582,7 @@ def units(tier, seed):
         if n == 2:
             for shard in range(8):
                 out.append(["double", si, n, shard, 8, 1])  # copy-protection lines only
-            if b["double"]:
+            if b["double"] and "abort" not in shape:  # (the aborting-copy shape: the copy-protection lines suffice)
                 for shard in range(16):
                     out.append(["double", si, n, shard, 16, 0])
     out += [["conc_hyp", i] for i in range(4)]
